@@ -148,7 +148,8 @@ def hostile(rng, entry, dev, v):
         if entry == "blob_wrong_size":
             return {"xml": wrap(f'<oneBLOB name="{n}" size="999" format=".b">QUJD</oneBLOB>'), "valid": [], "parser_ok": True}
         if entry == "blob_nonnumeric_size":
-            return {"xml": wrap(f'<oneBLOB name="{n}" size="big" format=".b">QUJD</oneBLOB>'), "valid": [], "parser_ok": True}
+            sz = rng.choice(["big", "1e999", "inf", "-inf", "nan", "3.5", "0x3", "1e3", " "])
+            return {"xml": wrap(f'<oneBLOB name="{n}" size="{sz}" format=".b">QUJD</oneBLOB>'), "valid": [], "parser_ok": True}
         if entry == "blob_missing_size":
             return {"xml": wrap(f'<oneBLOB name="{n}" format=".b">QUJD</oneBLOB>'), "valid": [], "parser_ok": False}
         return {"xml": wrap(f'<oneBLOB name="{n}" size="3" format=".b">Q*J$</oneBLOB>'), "valid": [], "parser_ok": True}
@@ -424,7 +425,8 @@ def execute(scen):
                 for dname in stack.drivers:
                     c01.compare_view(sim, observer.name, observer.client, observer.model, observer.handshakes, stack, dname,
                                      stack.truth(dname), v2, facts, observer.applied)
-                v2 = [x for x in v2 if not (x["clause"] == "C01.state" and x["facts"].get("kind") == "BLOB")]
+                # BLOB state / payload presence across the two connections is C01's business (K01-K06), not a disturbance
+                v2 = [x for x in v2 if not (x["facts"].get("kind") == "BLOB" and (x["clause"] == "C01.state" or x["facts"].get("missing_payload")))]
                 if v2:
                     viol.append({"clause": "C12.others", "detail": f"after the hostile message the observing client's view no longer matches the device: {v2[0]['detail'][:300]}; {ctx}", "facts": facts})
                     break
